@@ -162,11 +162,11 @@ def grid_batch_split(r1: int, r2: int, i: int, a: int, b: int) -> bool:
 
 def grid_shuffled_restart(seed: int, r1: int, r2: int, i: int, a: int) -> bool:
   """
-  pre: 0 <= seed <= 3 and 2 <= r1 <= 3 and 2 <= r2 <= 3 and 0 <= i <= 9 and 1 <= a <= 2
+  pre: -2 <= seed <= 3 and 2 <= r1 <= 3 and 2 <= r2 <= 3 and 0 <= i <= 9 and 1 <= a <= 2
   post: _
   """
   i = conc(i, 0, 9)
-  seed = conc(seed, 0, 3)
+  seed = conc(seed, -2, 3)       # negative seeds are legal shuffle seeds too
   r1 = conc(r1, 2, 3)
   r2 = conc(r2, 2, 3)
   a = conc(a, 1, 2)
